@@ -292,3 +292,36 @@ def run_code(code):
 def is_member(cid, r):
     c = annot_cases()[cid]
     return isinstance(r, c.cls)
+
+
+# ------------------------------------------------------------------ near misses of declared string values
+def near_misses(values):
+    """undeclared strings that a 'tolerant' lookup (case folding, trimming, prefix matching, normalisation) would
+    identify with a declared value; chosen by a symbolic index in the closed-enumeration lemmas"""
+    out = []
+    vs = [v for v in values if isinstance(v, str)]
+    for v in vs:
+        for c in (v.upper(), v.lower(), v.capitalize(), v.title(), v.swapcase(), " " + v, v + " ", v + "\n", "\t" + v, v[:-1], v[1:], v + v[-1:], v + "s", v.replace("-", "_"), v.replace("-", ""), v.replace("_", "-"), "\ufeff" + v, v + "\x00"):
+            if c not in vs and c not in out:
+                out.append(c)
+    return out
+
+
+_NEAR = {}
+
+
+def near(cid):
+    if cid not in _NEAR:
+        if cid.startswith("a"):
+            _NEAR[cid] = near_misses(annot_cases()[cid].values)
+        else:
+            _NEAR[cid] = near_misses(field_cases()[cid].detail["values"])
+    return _NEAR[cid]
+
+
+def annot_rejects_near(cid, k):
+    return annot_accepts(cid, near(cid)[k])[0] is False
+
+
+def field_rejects_near(cid, k):
+    return conv_accepts(cid, near(cid)[k])[0] is False
